@@ -1,4 +1,4 @@
 From Coq Require Extraction.
 From Coq Require Import ExtrOcamlBasic.
 From RM Require Import C14.Model C14.Driver.
-Extraction "c14_model.ml" run_case mk_ctx bp_of_stream misc_of_stream run_bytes.
+Extraction "c14_model.ml" run_case run_case_nm mk_ctx bp_of_stream misc_of_stream run_bytes.
